@@ -342,3 +342,56 @@ Example C14_incentive_zero_time_panics :
   let g := mkGen [(0%nat, ZERO_T)] [] [] in
   validate_genesis g = true /\ class_of (init_genesis e (init 5 (fun _ => 0) (fun _ => None) (fun _ => 0)) g) = RPanic.
 Proof. cbv zeta. split; vm_compute; reflexivity. Qed.
+
+(** * InitGenesis as the gate of a chain start *)
+From Kava Require Proofs.GenesisGateB.
+
+(* x/hard, x/swap, x/savings, x/incentive: what GenesisState.Validate refuses is never imported -
+   an InitGenesis that does not panic was given a genesis state that passes validation (for EVERY
+   genesis state, not only exports: cross-record checks such as "the depositors' shares of a pool
+   add up to the pool's total shares" gate the import) *)
+Theorem C14_hard_import_implies_valid :
+  forall e s0 g s' o, GenesisHard.init_genesis e s0 g = Ok s' o -> GenesisHard.validate_genesis g = true.
+Proof. exact GenesisGateB.hard_import_implies_valid. Qed.
+Print Assumptions C14_hard_import_implies_valid.
+
+Theorem C14_swap_import_implies_valid :
+  forall e s0 g s' o, GenesisSwap.init_genesis e s0 g = Ok s' o -> GenesisSwap.validate_genesis g = true.
+Proof. exact GenesisGateB.swap_import_implies_valid. Qed.
+Print Assumptions C14_swap_import_implies_valid.
+
+Theorem C14_savings_import_implies_valid :
+  forall e s0 g s' o, GenesisSavings.init_genesis e s0 g = Ok s' o -> GenesisSavings.validate_genesis g = true.
+Proof. exact GenesisGateB.savings_import_implies_valid. Qed.
+Print Assumptions C14_savings_import_implies_valid.
+
+Theorem C14_incentive_import_implies_valid :
+  forall e s0 g s' o, GenesisIncentive.init_genesis e s0 g = Ok s' o -> GenesisIncentive.validate_genesis g = true.
+Proof. exact GenesisGateB.incentive_import_implies_valid. Qed.
+Print Assumptions C14_incentive_import_implies_valid.
+
+(* OBSERVATION (not a statement of the property: a refused genesis state is not an export of a
+   reachable state): x/pricefeed's InitGenesis does not call GenesisState.Validate.  A post with a
+   negative price is refused by Validate, imported by InitGenesis and becomes the current price. *)
+Theorem C14_pricefeed_import_does_not_validate :
+  GenesisPricefeed.validate_genesis GenesisGateB.pf_bad = false /\
+  exists s', GenesisPricefeed.init_genesis GenesisGateB.pf_env 1000000000 (fun _ => true) GenesisGateB.pf_bad = Ok s' [] /\
+             Pricefeed.raw s' 0%nat 0%nat = Some (-1, 5000000000) /\
+             Pricefeed.get_current_price s' 0 = Some (-1).
+Proof. exact GenesisGateB.pricefeed_import_does_not_validate. Qed.
+Print Assumptions C14_pricefeed_import_does_not_validate.
+
+(* non-vacuity of the swap gate: one pool with total shares 10 and one depositor owning 10 is
+   imported; owning 9, owning 10 in two records of the same depositor, a share record without its
+   pool and a duplicated pool record are refused *)
+Example C14_swap_gate_nonvacuous :
+  let e := Swap.mkEnv 2 3 [(0%nat, 2%nat)] 0 in
+  let s0 := Swap.mkK (fun _ _ => 0) (fun _ _ => None) (fun _ _ _ => 0) in
+  let p := GenesisSwap.mkGP 0 2 0 2 100 200 10 in
+  let cls g := class_of (GenesisSwap.init_genesis e s0 g) in
+  cls (GenesisSwap.mkGen [(0%nat, 2%nat)] 0 [p] [GenesisSwap.mkGS 1 0 2 10]) = ROk /\
+  cls (GenesisSwap.mkGen [(0%nat, 2%nat)] 0 [p] [GenesisSwap.mkGS 1 0 2 9]) = RPanic /\
+  cls (GenesisSwap.mkGen [(0%nat, 2%nat)] 0 [p] [GenesisSwap.mkGS 1 0 2 9; GenesisSwap.mkGS 1 0 2 1]) = RPanic /\
+  cls (GenesisSwap.mkGen [(0%nat, 2%nat)] 0 [] [GenesisSwap.mkGS 1 0 2 10]) = RPanic /\
+  cls (GenesisSwap.mkGen [(0%nat, 2%nat)] 0 [p; p] [GenesisSwap.mkGS 1 0 2 10]) = RPanic.
+Proof. vm_compute. repeat split; reflexivity. Qed.
